@@ -91,6 +91,7 @@ def execute(scn, devs, bindir, scratch, expect=None):
         sch = Scheduler(str(root), sockpath, str(proj.p / ".redo" / "locks"), scn.get("visible", DEFAULT_VISIBLE), chooser,
                         max_steps=scn.get("max_steps", 3000), poll_at=scn.get("poll_at"),
                         kill_roots=scn.get("kill_roots", ()), max_kills=scn.get("max_kills", 1),
+                        term_scripts=scn.get("term_scripts", ()),
                         on_ask=lambda name: [proj.op(list(op)) for op in (scn.get("on_ask") or {}).get(name, [])])
         player = None
         env = dict(proj.env)
